@@ -35,6 +35,10 @@ CHECKS = {
             "Lean 4 induction over expression trees of >> (all groupings at once, nested PartialBinds), closed-form model of Signature.bind_partial with both directions of 'rejected iff can never bind', currying laws + differential correspondence on exec-generated classes, shipped classes and chains + Python's own call binding as independent oracle",
             "chain_assoc (every parenthesisation of a chain of any length with any of the three tail forms evaluates to the hand-nested object, each element constructed once, last to first, with its target and its own arguments), bindable_accepted / accepted_bindable (the eager check rejects exactly the argument lists no completion of which is a valid call), target/excess/duplicate rejection and curry_split are Lean theorems; the model is tied to _partial.py on every run by generated signatures, the shipped classes' real signatures (regenerated with inspect) and generated chains.",
             "Trusted: Lean kernel + standard axioms; model (sampling correspondence); inspect.Signature (closed form compared through Partial); positional-only parameters and the reserved names self/ctor/__leaf__ are outside the model."),
+    "C05": ("§6 C05",
+            "Lean 4 induction over the pipeline list on top of the C04 model (result = described chain, log = reverse order, error = no list, equality with the >> chain via chain_assoc) + differential correspondence on generated YAML documents loaded through core.config.load + hand-built pipeline as oracle",
+            "For every pipeline length and every mixture of !Tag (mapping/sequence/bare) and legacy __type__ elements: the loaded list is the described pipeline (each element's target is the very next object, configured arguments, each constructed once, last to first), a failing constructor yields no list, and the head equals what any grouping of the >> chain gives — Lean theorems; tied to core/config.py + config/yaml.py by loading generated YAML files with recording classes registered as tags and importable for __type__.",
+            "Trusted: Lean kernel + standard axioms; model (sampling correspondence); PyYAML node construction (mapping -> keywords, sequence -> positionals); legacy elements with __args__ are outside the statement."),
 }
 
 PENDING_REASON = "check not built yet in this session (planned: Lean model + proof + correspondence, see DESIGN.md work order); not claimed until its check exists"
